@@ -1,6 +1,8 @@
 package main
 
 import (
+	"crypto/sha256"
+	"encoding/hex"
 	"bytes"
 	"context"
 	"fmt"
@@ -24,6 +26,7 @@ type Verdict struct {
 	Detail  string
 	Script  string
 	Trivial bool
+	Cached  bool
 }
 
 const preamble = `(set-option :produce-models true)
@@ -376,6 +379,19 @@ func discharge(r *FuncResult, o *Obl, dir string, timeout float64, thorough bool
 		return v
 	}
 	script := buildScript(r, o)
+	ckey := ""
+	if cacheDir != "" && o.Expect != "sat" {
+		ckey = scriptKey(script)
+		if who, ok := cacheLookup(ckey); ok {
+			v.Status, v.Solver, v.Cached = "proved", "cache:"+who, true
+			return v
+		}
+	}
+	defer func() {
+		if ckey != "" && v.Status == "proved" && !v.Trivial {
+			cacheStore(ckey, v.Solver)
+		}
+	}()
 	file := filepath.Join(dir, sanitize(o.Name)+".smt2")
 	if len(file) > 200 {
 		file = filepath.Join(dir, fmt.Sprintf("o%x.smt2", hashStr(o.Name)))
@@ -558,5 +574,81 @@ func dischargeAll(results []*FuncResult, dir string, timeout float64, thorough b
 		}(i, j)
 	}
 	wg.Wait()
+	// second chance: obligations left undecided (no counterexample) are retried with three times the budget and few
+	// solvers at a time, so that a loaded machine does not turn a slow proof into an alarm
+	if os.Getenv("GOVC_NORETRY") == "" {
+		var retry []int
+		for i, v := range out {
+			if v != nil && v.Status == "unknown" {
+				retry = append(retry, i)
+			}
+		}
+		if len(retry) > 0 && len(retry) <= 60 {
+			sem2 := make(chan struct{}, 3)
+			for _, i := range retry {
+				wg.Add(1)
+				sem2 <- struct{}{}
+				go func(i int) {
+					defer wg.Done()
+					defer func() { <-sem2 }()
+					first := out[i]
+					v := discharge(jobs[i].r, jobs[i].o, dir, 3*timeout, thorough)
+					v.Time += first.Time
+					if v.Status == "unknown" {
+						v.Detail = first.Detail + " || retry: " + v.Detail
+					} else {
+						v.Solver += "+retry"
+					}
+					out[i] = v
+				}(i)
+			}
+			wg.Wait()
+		}
+	}
 	return out
+}
+
+// Verdict cache: an unsat verdict is a property of the SMT script alone, so it is remembered under the hash of the
+// script's (sorted) lines.  Only "proved" is cached; a changed function body or contract changes the script.
+var cacheDir = func() string {
+	if d := os.Getenv("GOVC_CACHE"); d != "" {
+		if d == "off" {
+			return ""
+		}
+		return d
+	}
+	return "/verif/.cache"
+}()
+
+func scriptKey(script string) string {
+	lines := strings.Split(script, "\n")
+	sort.Strings(lines)
+	h := sha256.New()
+	h.Write([]byte(solverVersions))
+	for _, l := range lines {
+		h.Write([]byte(l))
+		h.Write([]byte{10})
+	}
+	return hex.EncodeToString(h.Sum(nil))
+}
+
+const solverVersions = "z3-5.1.0 z3-4.8.12 cvc5-1.0"
+
+func cacheLookup(key string) (string, bool) {
+	b, err := os.ReadFile(filepath.Join(cacheDir, key[:2], key))
+	if err != nil {
+		return "", false
+	}
+	return strings.TrimSpace(string(b)), true
+}
+
+func cacheStore(key, solver string) {
+	d := filepath.Join(cacheDir, key[:2])
+	if os.MkdirAll(d, 0o755) != nil {
+		return
+	}
+	tmp := filepath.Join(d, key+".tmp")
+	if os.WriteFile(tmp, []byte(solver+"\n"), 0o644) == nil {
+		os.Rename(tmp, filepath.Join(d, key))
+	}
 }
